@@ -50,3 +50,26 @@ Example C06_frag_example_kernel :
   k_frag_packetCount 1460 1461 = Some 2%Z /\ k_h264_packetCount 1458 1458 = Some 1%Z /\ k_lpcm_packetCount 0 1440 = Some 0%Z /\
   k_frag_packetCount 0 10 = None.
 Proof. vm_compute. repeat split. Qed.
+
+(* ---- the remaining translated sites of rtpfragmented/encoder.go (spec.d/frag.txt) ----
+   avail := e.PayloadMaxSize, packetCount(avail, len(frame)) = the number of chunks Model.enc cuts, the last-packet
+   test and the marker expression i == packetCount-1 (Model.mk_pkts: marker on the last chunk), pos += le,
+   e.sequenceNumber++ = seq_next. *)
+From GV_frag Require Import BridgeLib BridgeSites.
+Open Scope Z_scope.
+Theorem C06_frag_kernels_are_the_code : forall (max : N) (frame : bytes) (i pc pos le s : N),
+  (0 < max)%N -> Z.of_N max < i64max -> Z.of_N (nlen frame) < i64max -> (1 <= pc)%N -> Z.of_N pc < i64max ->
+  Z.of_N (pos + le) < i64max ->
+  k_frag_avail (Z.of_N max) = Z.of_N max /\
+  k_frag_packetCount (k_frag_avail (Z.of_N max)) (Z.of_N (nlen frame)) = Some (Z.of_N (nlen (chunks max frame))) /\
+  k_frag_last (Z.of_N i) (Z.of_N pc) = (i + 1 =? pc)%N /\
+  k_frag_marker (Z.of_N i) (Z.of_N pc) = (i + 1 =? pc)%N /\
+  k_frag_pos (Z.of_N pos) (Z.of_N le) = Z.of_N (pos + le) /\
+  k_frag_seq (Z.of_N s) = Z.of_N (seq_next s).
+Proof. exact enc_sites_are_the_code. Qed.
+Print Assumptions C06_frag_kernels_are_the_code.
+
+Example C06_frag_example_kernels :
+  k_frag_marker 2 3 = true /\ k_frag_marker 1 3 = false /\ k_frag_seq 65535 = 0 /\ k_frag_pos 1450 1450 = 2900 /\
+  k_frag_packetCount (k_frag_avail 1450) 1451 = Some 2.
+Proof. vm_compute. repeat split. Qed.
